@@ -435,8 +435,10 @@ func (s *Store) Cmp(op Op, a, b *Term) *Term {
 	}
 	if op == OpUlt || op == OpUle {
 		// comparisons of non-wrapping products with a constant factor (term_div.go)
-		if t := s.cmpMulConst(op, a, b); t != nil {
-			return t
+		if optTermDiv {
+			if t := s.cmpMulConst(op, a, b); t != nil {
+				return t
+			}
 		}
 	}
 	if op == OpSlt || op == OpSle {
@@ -642,7 +644,7 @@ func (s *Store) Bin(op Op, a, b *Term) *Term {
 	switch op {
 	case OpBvUDiv, OpBvURem, OpBvSDiv, OpBvSRem:
 		// (x*A) div/rem B for constants A, B with B/gcd(A,B) a power of two (term_div.go)
-		if b.op == OpConst && w == 64 {
+		if optTermDiv && b.op == OpConst && w == 64 {
 			if t := s.divRemConst(op, a, b.c, 0); t != nil {
 				return t
 			}
